@@ -111,6 +111,29 @@ def gen_cases(run, n, prefix="c"):
     return out
 
 
+def extended_enum_cases(run):
+    """SDL `extend enum`: the values of the DEFINITION keep their variants whatever happens to the extension (clean corpus); the
+    extension's own value is a schema value too - the pinned tree ignores enum extensions altogether (finding K11, hazard corpus)"""
+    from ..model import Schema
+    out = []
+    for ci, (corpus, probe) in enumerate((("clean", ["OPEN", "closed", "type", "zz_unknown", ""]), ("hazard:K11", ["IN_REVIEW"]))):
+        for rust in (False, True):
+            s = Schema()
+            s.add("Status", {"kind": "enum", "values": ["OPEN", "closed", "type"]})
+            s.add("Plain", {"kind": "enum", "values": ["A", "B"]})
+            s.add("Query", {"kind": "object", "implements": [], "fields": [{"name": "e", "type": T("Status"), "args": [], "deprecated": None}, {"name": "p", "type": T("Plain"), "args": [], "deprecated": None}]})
+            doc = {"operations": [{"kind": "query", "name": "Q", "vars": [{"name": "v", "type": T("Status"), "default": None}], "sel": [["field", None, "e", None, None], ["field", None, "p", None, None]]}], "fragments": []}
+            c = C.make_case("xe%d%d" % (ci, int(rust)), s, doc, run.rng, options={"normalization": "rust"} if rust else {}, fmt="sdl", corpus=corpus)
+            c["schema_text"] = "enum Status { OPEN closed type }\nenum Plain { A B }\ntype Query { e: Status p: Plain }\nextend enum Status @tag { IN_REVIEW }\nextend enum Status { done }\ndirective @tag on ENUM\n"
+            c["schema_ext"] = "graphql"
+            known = {"OPEN", "closed", "type", "IN_REVIEW", "done"}
+            c["vectors"] = [{"id": "x%d" % k, "kind": "enum", "target": "@enum-of:Status", "input": st, "expect": {"known": st in known}, "s": st, "enum": "Status"} for k, st in enumerate(probe)]
+            c["enum_values"] = sorted(known)
+            c["features"] = ["extend-enum"]
+            out.append(c)
+    return out
+
+
 def execute(run, cases, tag="b0"):
     fac = Factory("%s-%s-%d" % (run.prop, tag, run.seed))
     gen, verdict, obs = fac.run(cases)
@@ -206,6 +229,7 @@ def main(run):
     run.assumptions = ["value names that collide after normalisation, or that equal / normalise to `Other`, are outside the clean corpus (finding K4)",
                        "`true`, `false`, `null` are not legal enum value names in GraphQL"]
     cs = gen_cases(run, run.size(40, 600))
+    cs += extended_enum_cases(run)
     cs += hazards.cases_for(run, "C10")
     for w in cs:
         w.setdefault("enum_values", [])
